@@ -16,6 +16,8 @@ pub struct Mix {
     pub w5b: (u64, u64),
     /// W5c long cyclers: (games quick, games thorough), not multiplied
     pub w5c: (u64, u64),
+    /// W5d take-back cyclers
+    pub w5d: (u64, u64),
     /// W7c setup + cycler from the first play position
     pub w7c: (u64, u64),
     pub w7: (u64, u64),
@@ -31,14 +33,14 @@ pub struct Mix {
 }
 impl Default for Mix {
     fn default() -> Self {
-        Mix { w1: (0, 0), w2: (0, 0), w3: (0, 0), w5: (0, 0), w5b: (0, 0), w5c: (0, 0), w7c: (0, 0), w7: (0, 0), max_turns: 200, long_w3: (0, 0), text_per_mille: 20, tree_per_mille: 0, sweep2: false, sweep3: (0, 0), sweep_depth: 2, sweep4_thorough: false }
+        Mix { w1: (0, 0), w2: (0, 0), w3: (0, 0), w5: (0, 0), w5b: (0, 0), w5c: (0, 0), w5d: (0, 0), w7c: (0, 0), w7: (0, 0), max_turns: 200, long_w3: (0, 0), text_per_mille: 20, tree_per_mille: 0, sweep2: false, sweep3: (0, 0), sweep_depth: 2, sweep4_thorough: false }
     }
 }
 
 pub fn run_mix(cfg: &Cfg, mix: &Mix, make: &(dyn Fn() -> Box<dyn Monitor> + Sync)) -> Sink {
     // game counts in the plans below are per worker; quick plans are multiplied by 6, thorough by 20
     let k = if cfg.tier == Tier::Quick { 6 } else { 20 };
-    let mix = &Mix { w1: (mix.w1.0 * k, mix.w1.1 * k), w2: (mix.w2.0 * k, mix.w2.1 * k), w3: (mix.w3.0 * k, mix.w3.1 * k), w5: (mix.w5.0 * k, mix.w5.1 * k), w5b: (mix.w5b.0 * k, mix.w5b.1 * k), w7c: (mix.w7c.0 * k, mix.w7c.1 * k), w7: (mix.w7.0 * k, mix.w7.1 * k), long_w3: (mix.long_w3.0, mix.long_w3.1), sweep3: (if mix.sweep3.0 > 0 { (mix.sweep3.0 / 4).max(1) } else { 0 }, mix.sweep3.1), ..*mix };
+    let mix = &Mix { w1: (mix.w1.0 * k, mix.w1.1 * k), w2: (mix.w2.0 * k, mix.w2.1 * k), w3: (mix.w3.0 * k, mix.w3.1 * k), w5: (mix.w5.0 * k, mix.w5.1 * k), w5b: (mix.w5b.0 * k, mix.w5b.1 * k), w7c: (mix.w7c.0 * k, mix.w7c.1 * k), w5d: (mix.w5d.0 * k, mix.w5d.1 * k), w7: (mix.w7.0 * k, mix.w7.1 * k), long_w3: (mix.long_w3.0, mix.long_w3.1), sweep3: (if mix.sweep3.0 > 0 { (mix.sweep3.0 / 4).max(1) } else { 0 }, mix.sweep3.1), ..*mix };
     run_parallel(cfg, |w, sink| {
         let mut mon = make();
         let opts = PlayOpts { max_turns: mix.max_turns, max_actions: mix.max_turns * 4 + 8, tree_per_mille: mix.tree_per_mille, ..PlayOpts::default() };
@@ -54,6 +56,9 @@ pub fn run_mix(cfg: &Cfg, mix: &Mix, make: &(dyn Fn() -> Box<dyn Monitor> + Sync
         }
         if mix.w5b.1 > 0 {
             play_saturated(cfg.n(mix.w5b.0, mix.w5b.1), cfg.seed, w, &opts3, m, sink);
+        }
+        if mix.w5d.1 > 0 {
+            play_takebacks(cfg.n(mix.w5d.0, mix.w5d.1), cfg.seed, w, m, sink);
         }
         if mix.w7c.1 > 0 {
             play_setup_cyclers(cfg.n(mix.w7c.0, mix.w7c.1), cfg.seed, w, m, sink);
@@ -103,7 +108,7 @@ fn base_report(evals: &'static str, rule: &str, floors: Vec<Floor>) -> Report {
 }
 
 pub fn c01(cfg: &Cfg) -> i32 {
-    let mix = Mix { w1: (700, 20000), w2: (700, 20000), w3: (200, 4000), w7: (20, 400), tree_per_mille: 5, sweep2: true, sweep3: (16, 1), sweep4_thorough: true, ..Mix::default() };
+    let mix = Mix { w1: (700, 20000), w2: (700, 20000), w3: (200, 4000), w5b: (60, 1200), w5d: (60, 1200), w7: (20, 400), tree_per_mille: 5, sweep2: true, sweep3: (16, 1), sweep4_thorough: true, ..Mix::default() };
     let sink = run_mix(cfg, &mix, &|| Box::new(C01::default()));
     let floors = vec![
         floor("states_judged", 300_000, 3_000_000),
@@ -155,7 +160,7 @@ pub fn c03(cfg: &Cfg) -> i32 {
 }
 
 pub fn c05(cfg: &Cfg) -> i32 {
-    let mix = Mix { w1: (200, 5000), w3: (1200, 30000), w5: (1200, 30000), w5b: (150, 4000), w5c: (8, 200), w7c: (40, 800), w7: (10, 200), long_w3: (0, 60), max_turns: 200, ..Mix::default() };
+    let mix = Mix { w1: (200, 5000), w3: (1200, 30000), w5: (1200, 30000), w5b: (150, 4000), w5c: (8, 200), w5d: (300, 6000), w7c: (40, 800), w7: (10, 200), long_w3: (0, 60), max_turns: 200, ..Mix::default() };
     let sink = run_mix(cfg, &mix, &|| Box::new(C05::default()));
     let floors = vec![
         floor("turn_ends_judged", 200_000, 2_000_000),
@@ -167,6 +172,8 @@ pub fn c05(cfg: &Cfg) -> i32 {
         floor("turn_ends_after_capture_in_turn", 100, 1000),
         floor("long_cycler_scripts_built", 40, 1000),
         floor("setup_cycler_scripts_built", 500, 10_000),
+        floor("takeback_scripts_takeback_by_fourth_step", 100, 2000),
+        floor("takeback_scripts_takeback_by_pass", 1000, 20_000),
         floor("third_repetition_attempts_after_turn_256", 20, 500),
         floor("longest_game_turns", 400, 1500),
     ];
@@ -174,7 +181,7 @@ pub fn c05(cfg: &Cfg) -> i32 {
 }
 
 pub fn c06(cfg: &Cfg) -> i32 {
-    let mix = Mix { w1: (300, 8000), w2: (200, 5000), w3: (1200, 30000), w5: (1200, 30000), w5b: (150, 4000), w5c: (8, 200), w7c: (40, 800), w7: (10, 200), long_w3: (0, 60), ..Mix::default() };
+    let mix = Mix { w1: (300, 8000), w2: (200, 5000), w3: (1200, 30000), w5: (1200, 30000), w5b: (150, 4000), w5c: (8, 200), w5d: (300, 6000), w7c: (40, 800), w7: (10, 200), long_w3: (0, 60), ..Mix::default() };
     let sink = run_mix(cfg, &mix, &|| Box::new(C06::default()));
     let floors = vec![
         floor("states_judged", 300_000, 3_000_000),
@@ -190,9 +197,9 @@ pub fn c06(cfg: &Cfg) -> i32 {
 }
 
 pub fn c07(cfg: &Cfg) -> i32 {
-    let mix = Mix { w1: (300, 8000), w2: (200, 5000), w3: (2000, 50000), w5: (800, 20000), w5b: (300, 8000), w5c: (4, 100), w7c: (20, 400), w7: (40, 800), ..Mix::default() };
+    let mix = Mix { w1: (300, 8000), w2: (200, 5000), w3: (2000, 50000), w5: (800, 20000), w5b: (300, 8000), w5c: (4, 100), w5d: (150, 3000), w7c: (20, 400), w7: (40, 800), ..Mix::default() };
     let sink = run_mix(cfg, &mix, &|| Box::new(C07::default()));
-    let floors = vec![floor("states_judged", 300_000, 3_000_000), floor("dead_end_pending_push_all_completions_withheld", 20, 400), floor("states_can_pass_true_ne_false", 10_000, 100_000), floor("setup_states_judged", 10_000, 100_000), floor("dead_end_every_turn_ender_withheld", 150, 4000), floor("saturated_scripts_only_pull_left", 2000, 50_000), floor("saturated_scripts_dead_end", 500, 12_000), floor("saturated_scripts_dead_end_beside_pushable_enemy", 500, 12_000)];
+    let floors = vec![floor("states_judged", 300_000, 3_000_000), floor("dead_end_pending_push_all_completions_withheld", 20, 400), floor("states_can_pass_true_ne_false", 10_000, 100_000), floor("setup_states_judged", 10_000, 100_000), floor("dead_end_every_turn_ender_withheld", 150, 4000), floor("saturated_scripts_only_pull_left", 2000, 50_000), floor("saturated_scripts_dead_end", 500, 12_000), floor("saturated_scripts_dead_end_beside_pushable_enemy", 200, 5_000), floor("dead_end_with_a_pull_among_the_withheld", 500, 12_000), floor("dead_end_pending_push_completion_is_third_repetition", 500, 12_000)];
     conclude(cfg, sink, base_report("states_judged", "W3/W5 repetition-heavy games and W5b saturated-neighbourhood scripts (a lone mobile piece visits a square and all its neighbours twice, then returns: at step 3 the pass and every own step are withheld, leaving either nothing or only a pull), W1/W2/W7 games; at every setup and play state is_terminal, valid_actions, valid_actions_no_rep, can_pass(true/false) and has_move are cross-checked. distinct_nontrivial = distinct mid-turn dead ends plus distinct states where can_pass(true) != can_pass(false).", floors))
 }
 
@@ -222,7 +229,7 @@ pub fn c10(cfg: &Cfg) -> i32 {
 }
 
 pub fn c12(cfg: &Cfg) -> i32 {
-    let mix = Mix { w1: (700, 20000), w2: (900, 25000), w3: (100, 2000), w7: (20, 400), tree_per_mille: 5, sweep2: true, sweep3: (16, 1), ..Mix::default() };
+    let mix = Mix { w1: (700, 20000), w2: (900, 25000), w3: (100, 2000), w5b: (120, 2400), w5d: (100, 2000), w7: (20, 400), tree_per_mille: 5, sweep2: true, sweep3: (16, 1), ..Mix::default() };
     let sink = run_mix(cfg, &mix, &|| Box::new(C12::default()));
     let mut floors = vec![floor("states_judged", 300_000, 3_000_000), floor("pull_completions_that_could_have_been_push_starts", 1000, 10_000), floor("own_steps_completing_a_push", 10_000, 100_000), floor("rabbit_steps", 10_000, 100_000), floor("pull_status_squares_seen_of_64", 64, 64), floor("push_status_squares_seen_of_64", 64, 64)];
     for t in ["c", "d", "h", "m", "e"] {
